@@ -215,7 +215,8 @@ def deliverable_but_pending(ex):
         app = sub.app_id
         pair = head.tot_pairs - head.pairs_left
         try:
-            v = ex._app_arrays[app][head.q_array_address, pair]
+            ids = getattr(head, "virtual_qubit_ids", None)
+            v = ids[pair] if ids is not None else ex._app_arrays[app][head.q_array_address, pair]
             ent = ex._app_arrays[app][head.ent_results_array_address, 0:(pair + 1) * OK_FIELDS]
         except Exception:
             continue
